@@ -467,7 +467,8 @@ def stable_pick(T, n):
 def run_tlc_parallel(ctx, fams, timeout):
     """the families are independent configurations of one module: run them side by side"""
     def one(f):
-        return _tlc.run('MichPy', f['cfg'], ctx.wd, name='MichPy_' + f['name'], workers=4, timeout=timeout, coverage=False)
+        # action coverage (vacuity) is collected on the smallest family only: -coverage slows the big ones down a lot
+        return _tlc.run('MichPy', f['cfg'], ctx.wd, name='MichPy_' + f['name'], workers=4, timeout=timeout, coverage=f['name'] == 'keys')
     with concurrent.futures.ThreadPoolExecutor(max_workers=4) as ex:
         results = list(ex.map(one, fams))
     for f, r in zip(fams, results):     # the bookkeeping of ctx.tlc, done in the main thread
@@ -497,8 +498,11 @@ def run(ctx):
     results = run_tlc_parallel(ctx, fams, 600 if ctx.quick else 3000)
     seen = set()
     ntypes = 0
+    classes = set()
     for f, r in zip(fams, results):
         ctx.require_no_violation(r, 'MichPy_' + f['name'])
+        if f['name'] == 'keys':
+            ctx.require_coverage(r, ['LayoutStep', 'Pick', 'Encode', 'Decode'])
         outs = [v for v in r.printed if v[0] == 'OUT']
         if not outs:
             raise Exception('no cases exported by family ' + f['name'])
@@ -519,6 +523,7 @@ def run(ctx):
             good = True
             for _, _, v, convok, nested, py, back in bytype[T]:
                 c = Case(T, v, convok, nested, py, back)
+                classes.add((convok, nested, py[0]))
                 good = check_case(ctx, tc, c, with_ep) and good
                 ctx.replayed += 1
                 ctx.count((T, v), nontrivial=len(T) > 3)
@@ -526,6 +531,12 @@ def run(ctx):
                 c = bytype[T][-1]
                 ctx.sample({'type': michelson(T), 'value': vjson(T, c[2]), 'object': repr(pyobj(c[5])) if c[3] else None}, limit=6)
     ctx.extra['types'] = ntypes
+    # vacuity: every class of case the invariants and comparisons speak about was actually enumerated
+    need = [(False, False, '#undefined'), (True, True, 'pynone'), (True, False, 'pydict'), (True, False, 'pytuple'), (True, False, 'pyname'),
+            (True, False, 'pylist'), (True, False, 'pyint')]
+    missing = [n for n in need if n not in classes]
+    if missing or not ctx.extra.get('entrypoint_cases'):
+        raise _tlc.MachineryError('vacuity: case classes never enumerated: %s (entrypoint cases: %s)' % (missing, ctx.extra.get('entrypoint_cases')))
     ctx.exhaustive = True
 
 
@@ -556,7 +567,8 @@ META = {
              'where the documented object is not injective. Every (type, value) TLC enumerates is replayed through to_python_object / from_python_object, '
              'ContractData.decode / encode and (sampled) ContractEntrypoint.decode / encode and compared with the model.'),
     'design_ref': 'DESIGN.md section 5 C12',
-    'note': ('Trusted: the term / object converters in C12.py. Bounds (quick): depth 2, <= 3 annotated nodes, five families (~6k types, ~20k cases); thorough: depth 2-3, '
-             '<= 4 annotated nodes, nine families. Values are end-point combinations, not full products. Unit and option(option) keys excluded.'),
+    'note': ('Trusted: the term / object converters in C12.py. Bounds (quick): depth 2, <= 3 annotated nodes, five families (~6.7k types, ~24k cases); thorough: depth 2-3, '
+             '<= 4 annotated nodes, ten families (~85k types, ~314k cases). Values are end-point combinations, not full products. Unit and option(option) keys excluded. '
+             'ContractEntrypoint on a hash-selected sample of the sum / mix families.'),
     'technique': 'TLA+ spec + TLC exhaustive model checking; spec-behaviour replay into MichelsonType / ContractData / ContractEntrypoint',
 }
